@@ -590,10 +590,44 @@ def check_one(ctx, fails, df, meta, f, mods, cl, searches, pay, r):
             fails.append((n, 'GEstimationSNM.search.%s-start.%s' % (s['mode'], kind), '[%d-parameter SNM] ' % dim + what, spay))
 
 
+def budget_part(ctx, fails, cases):
+    """fit(solver='search', maxiter=k): `maxiter` is documented as the number of ITERATIONS after which the search gives up and is
+    reported as not converged.  With a budget far too small to converge the solver must use exactly k iterations."""
+    done = 0
+    for case in cases:
+        df, meta, f, mods = case[:4]
+        if len(case) > 4 or not has_main(f) or len(mods) + 1 < 2:
+            continue
+        for k in (7, 19):
+            try:
+                g = build(df, meta, f)
+                with warnings.catch_warnings():
+                    warnings.simplefilter('ignore')
+                    g.fit(solver='search', maxiter=k)
+                o = g._scipy_solver_obj
+            except Exception as ex:   # noqa
+                fails.append((len(df), 'GEstimationSNM.search.maxiter.raises', 'fit(solver="search", maxiter=%d) raised %s: %s'
+                              % (k, type(ex).__name__, str(ex)[:120]), payload_of(df, meta, f, {'maxiter': k})))
+                continue
+            ctx.evaluations += 1
+            ctx.disagreements_checked += 1
+            ctx.count('search with an iteration budget of %d: %s after %d iterations' % (k, 'converged' if o.success else 'not converged', int(o.nit)))
+            ctx.nontriv(['maxiter', k, f, len(df), str(df.iloc[0].tolist())])
+            if int(o.nit) > k or (not o.success and int(o.nit) < k):
+                fails.append((len(df), 'GEstimationSNM.search.maxiter.stopped-unconverged-before-the-iteration-budget',
+                              '[%d-parameter SNM] fit(solver="search", maxiter=%d) stopped %s after %d iterations (%d function evaluations): %s'
+                              % (len(mods) + 1, k, 'converged' if o.success else 'unconverged', int(o.nit), int(o.nfev), str(o.message)[:80]),
+                              payload_of(df, meta, f, {'maxiter': k})))
+        done += 1
+        if done >= (1 if ctx.quick else 4):
+            break
+
+
 def run(ctx):
     fails = []
     cases = gen_cases(ctx)
     check_cases(ctx, fails, cases, search_plan(ctx, cases))
+    budget_part(ctx, fails, cases)
     report(ctx, fails)
 
 
@@ -619,8 +653,12 @@ def replay(ctx, payload):
         case = (df, meta, f, mods)
         if payload.get('steps'):
             case = case + ([tuple(st) for st in payload['steps']],)
-        check_cases(ctx, fails, [case], plan)
+        if payload.get('maxiter'):
+            budget_part(ctx, fails, [case])
+        else:
+            check_cases(ctx, fails, [case], plan)
     else:
         cases = gen_cases(ctx)
         check_cases(ctx, fails, cases, search_plan(ctx, cases))
+        budget_part(ctx, fails, cases)
     report(ctx, fails)
